@@ -8,11 +8,15 @@ compares everything exactly (Tie/C09.v check_case).
 Level 2 (extra obligation, Tie/C09.v check_case_l2): the dumped trees satisfy the boolean Good invariant
 and their in-order lists are the abstract set, without reference to the tree model.
 D: reference Python set in lock-step; BST order, stored sizes/heights against recomputed ones, balance,
-parent links, the AVL height bound, and the exact draw distribution obtained by enumerating every
-outcome of every rng.integers call with Fraction weights.
+parent links, the AVL height bound, the exact draw distribution obtained by enumerating every
+outcome of every rng.integers call with Fraction weights, and the cost clause: the number of entries
+into TreeNode functions made by every single add / discard / remove / draw / in / len / empty call is
+at most a constant times the height (per rotation performed), and by an iteration a constant times n
+(COST below; counted by wrappers that are installed for one case and removed in a finally).
 
-Elements: ints, and int pairs (a, b) with 0 <= b < K which the Coq side sees as a*K + b
-(order isomorphism, Properties/C09.v C09_pair_order)."""
+Elements: ints, int pairs (a, b) with 0 <= b < K which the Coq side sees as a*K + b
+(order isomorphism, Properties/C09.v C09_pair_order), and string labels / pairs of string labels,
+which the Coq side sees as their rank in the sorted universe of the case."""
 import hashlib
 import itertools
 import os
@@ -154,6 +158,7 @@ def node_distribution(root):
         for node in order:
             dist = {}
             deepest = 0
+            handed = {}
             stack = [((), Fraction(1))]
             while stack:
                 prefix, w = stack.pop()
@@ -165,15 +170,19 @@ def node_distribution(root):
                         stack.append((prefix + (i,), w / (n.hi - n.lo)))
                     continue
                 if out[0] == 'elem' and isinstance(out[1], Delegated):
-                    sub = laws.get(id(out[1].node))
-                    if sub is None:          # delegated to something that is not a descendant
+                    if id(out[1].node) not in laws:          # delegated to something that is not a descendant
                         return None
-                    for o, p in sub[0].items():
-                        dist[o] = dist.get(o, Fraction(0)) + w * p
-                    deepest = max(deepest, len(prefix) + sub[1])
+                    # total weight handed to this child (its law is mixed in once, below: same sum, exact)
+                    tw, tp = handed.get(id(out[1].node), (Fraction(0), 0))
+                    handed[id(out[1].node)] = (tw + w, max(tp, len(prefix)))
                 else:
                     dist[out] = dist.get(out, Fraction(0)) + w
                     deepest = max(deepest, len(prefix))
+            for child, (tw, tp) in handed.items():
+                sub = laws[child]
+                for o, p in sub[0].items():
+                    dist[o] = dist.get(o, Fraction(0)) + tw * p
+                deepest = max(deepest, tp + sub[1])
             if any(isinstance(o[1], Delegated) for o in dist):
                 return None
             laws[id(node)] = (dist, deepest)
@@ -225,27 +234,67 @@ def walk(root):
     return dump, h, n, faults
 
 
-_counts = {'rot': 0, 'nested': 0, 'depth': 0}
+_counts = {'rot': 0, 'nested': 0, 'depth': 0, 'visits': 0}
 
 
 def instrument():
-    """count rotations (and nested repairs) for the evidence file; behaviour is unchanged"""
+    """count, without changing behaviour, every entry into a function of TreeNode (whatever methods the
+    class has: add, find, discard, draw, __len__, _updateHeightAndSizes, _findUnbalanced, _leftmost,
+    _inOrder, ... - one entry is one visit of one tree entry) and, separately, the rotations and the nested
+    repairs.  Returns the function that puts the original methods back; execute() calls it in a finally."""
+    import types
     from epydemic import TreeNode
-    if getattr(TreeNode._rotate, '_c09', False):
-        return
-    orig = TreeNode._rotate
+    saved = {}
 
-    def counted(z):
-        _counts['rot'] += 1
-        if _counts['depth'] > 0:
-            _counts['nested'] += 1
-        _counts['depth'] += 1
-        try:
-            return orig(z)
-        finally:
-            _counts['depth'] -= 1
-    counted._c09 = True
-    TreeNode._rotate = counted
+    def counted(f):
+        def visit(*a, **kw):
+            _counts['visits'] += 1
+            return f(*a, **kw)
+        visit._c09 = True
+        return visit
+
+    def counted_rotation(f):
+        def visit(*a, **kw):
+            _counts['visits'] += 1
+            _counts['rot'] += 1
+            if _counts['depth'] > 0:
+                _counts['nested'] += 1
+            _counts['depth'] += 1
+            try:
+                return f(*a, **kw)
+            finally:
+                _counts['depth'] -= 1
+        visit._c09 = True
+        return visit
+    for name, f in list(vars(TreeNode).items()):
+        if isinstance(f, types.FunctionType) and not getattr(f, '_c09', False):
+            saved[name] = f
+            setattr(TreeNode, name, counted_rotation(f) if name == '_rotate' else counted(f))
+
+    def restore():
+        for name, f in saved.items():
+            setattr(TreeNode, name, f)
+        _counts['depth'] = 0
+    return restore
+
+
+# the cost clause ("every operation visits O(log n) entries"), made concrete: with H the height of the tree in
+# nodes (the larger of before and after the call) and r the number of rotations the call performed, a call of
+# kind k may enter at most COST[k] * (H + 2) * (1 + r) TreeNode functions; iteration, which has to produce
+# n elements, at most COST_ITER * (n + 1).  H <= 2 log2(n+1) + 1 is checked separately ('height-bound'), so
+# this is O(log n) per walk.  The constants are TWICE what can be derived for the code as it stands (and more
+# than twice what any generated history reaches), counting every function of TreeNode as it is today:
+#   add      <= H add + 1 __init__ + (1+3H) _updateHeights walk + 1 _rebalance + 2(H+1) _findUnbalanced/isUnbalanced
+#               = 6H+5, and every rotation <= 1 + 2 _tallerSubtree + 3*3 _updateHeightAndSizes/__len__ + 2 isUnbalanced
+#               + (1+3H) walk = 3H+15                                              -> 7 (H+2) (1+r) covers both
+#   discard  <= (H+1) discard + H _leftmost/_rightmost + (1+3H) + (1+r) _rebalance + 2(H+r) _findUnbalanced
+#               = 7H+3+3r, every rotation 3H+15 as above                           -> 7 (H+2) (1+r)
+#   draw     <= H draw + H __len__ ;  in <= H find ;  len <= 1 ;  empty 0 ;  iteration = 1 __iter__ + n _inOrder
+# The factor (1 + r) is there because the code re-walks to the root after every rotation (nested repairs
+# included), which is the O(log^2 n) worst case of a deletion that DESIGN.md states is not a theorem; a bound
+# in H alone could alarm on the unchanged code for an adversarial tree, this one cannot.
+COST = {'A': 14, 'D': 14, 'R': 14, 'Dr': 4, 'M': 2, 'len': 2, 'empty': 2}
+COST_ITER = 2
 
 
 # insertion orders of {0..7} after which deleting one element makes the rotation's nested repair fire
@@ -265,40 +314,72 @@ class H(Harness):
     CASE_TIMEOUT = 30
     ALLOWED_AXIOMS = set()
     RULE = ('operation sequences on one DrawSet: add / discard / remove / draw (scripted rng.integers) / in / iter; '
-            'ints or int pairs; universe 4-200; length 1-150 (thorough 400); add-heavy then discard-heavy phases, duplicates, '
-            'absent removals, drain to empty and refill, order-preserving copies of 8 seed histories on which the nested repair inside _rotate fires; exhaustive: all add/discard sequences of length 4 over 3 elements and '
+            'ints, int pairs, string labels or pairs of string labels; universe 4-200; length 1-150 (thorough 400); add-heavy then discard-heavy phases, duplicates, '
+            'absent removals, drain to empty and refill, 6% large sets (150-300 elements inserted in random or monotone order, then 30-80 mixed operations), order-preserving copies of 8 seed histories on which the nested repair inside _rotate fires; exhaustive: all add/discard sequences of length 4 over 3 elements and '
             'length 3 with remove over 4 elements, all insertion orders x deletion orders of sets of size <= 4 '
             '(thorough: length 5 over 4 elements, sets of size <= 5); a case is non-trivial when the set reached size >= 3')
     TRUSTED = ['Coq 8.16.1 kernel incl. vm_compute', 'harness/c09.py and vlib (scripted rng.integers, tree dump through the private attributes of TreeNode)',
-               'Python == and < on ints and tuples are a decidable strict total order (pairs are handed to Coq as a*64+b)']
+               'Python == and < on ints, strings and tuples of them are a decidable strict total order (int pairs are handed to Coq as a*64+b, strings and string pairs as their rank in the sorted universe of the case)',
+               'the cost clause is observed as the number of entries into functions of TreeNode per public call (a loop that walks the tree without calling a TreeNode function is not counted)']
     ASSUMPTIONS = ['numpy Generator.integers(n) is uniform on 0..n-1 and successive calls are independent (the law of draw is proved and enumerated under this contract)',
                    'elements are compared only through == and < and these form a strict total order']
 
     # ------------------------------------------------------------------ generation
+    def _labels(self, rnd, U):
+        """U distinct string node labels: numbered names (whose order is not the numeric one), short words over a
+        small alphabet (many are prefixes of one another, upper case sorts before lower case), now and then the
+        empty string and a non-ASCII name"""
+        style = rnd.choice(['numbered', 'words', 'both'])
+        out = set()
+        if style != 'words':
+            pre = rnd.choice(['n', 'node', 'v_', ''])
+            out.update('%s%d' % (pre, i) for i in range(U if style == 'numbered' else U // 2))
+        if rnd.random() < 0.3:
+            out.update(['', '\u00e9mile', 'Zo\u00eb'][:rnd.randrange(1, 4)])
+        while len(out) < U:
+            out.add(''.join(rnd.choice('abAB1_') for _ in range(rnd.randrange(1, 5))))
+        out = sorted(out)
+        rnd.shuffle(out)
+        return out[:U]
+
     def _universe(self, rnd, kind, U):
         if kind == 'int':
             base = rnd.choice([0, 0, -3, 1000])
             return [base + i for i in range(U)]
+        if kind == 'str':
+            return self._labels(rnd, U)
         m = 2
         while m * m < U:
             m += 1
+        if kind == 'strpair':     # edges between string-labelled nodes, both orientations possible
+            lab = self._labels(rnd, m)
+            allp = [(a, b) for a in lab for b in lab]
+            rnd.shuffle(allp)
+            return allp[:U]
         allp = [(a, b) for a in range(m) for b in range(m)]
         rnd.shuffle(allp)
         return allp[:U]
 
     def _random_case(self, rnd, tier):
-        kind = 'int' if rnd.random() < 0.7 else 'pair'
+        kind = rnd.choice(['int'] * 12 + ['pair'] * 4 + ['str'] * 3 + ['strpair'])
         U = rnd.choice([4, 6, 10, 20, 50, 100, 200])
         lens = [1, 5, 12, 30, 60, 100, 150] if tier == 'quick' else [5, 12, 30, 60, 100, 150, 250, 400]
         n = rnd.choice(lens)
         n = min(n, 8 * U)
+        big = rnd.random() < 0.06
+        if big:
+            # a large set first (150-300 distinct elements), then a short mixed history on it: the sizes at which
+            # an operation that touches every entry is far above any multiple of the height
+            U = rnd.choice([300, 400])
+            n = rnd.choice([30, 50, 80])
         uni = self._universe(rnd, kind, U)
         ops = []
         present = set()
+        outside = {'pair': (-1, 5), 'str': '~none', 'strpair': ('~', 'none')}
 
         def pick():
             if rnd.random() < 0.04:      # outside the universe
-                return (-1, 5) if kind == 'pair' else uni[0] - 1 - rnd.randrange(3)
+                return outside[kind] if kind != 'int' else uni[0] - 1 - rnd.randrange(3)
             return rnd.choice(uni)
 
         def emit(k, x=None):
@@ -315,6 +396,15 @@ class H(Harness):
 
         style = rnd.choice(['phases', 'phases', 'phases', 'drain', 'drain', 'mixed', 'mixed', 'nested'])
         split = int(n * rnd.choice([0.5, 0.6, 0.7]))
+        if big:
+            style = rnd.choice(['mixed', 'phases'])
+            first = rnd.sample(uni, rnd.choice([150, 220, 300]))
+            if rnd.random() < 0.3:
+                first.sort(reverse=rnd.random() < 0.5)      # monotone insertion: a rotation at almost every step
+            for x in first:
+                emit('A', x)
+            n += len(first)
+            split = len(first) if style == 'phases' else split + len(first)
         if style == 'nested' and len(uni) >= 8:
             # an order-preserving copy of a seed that makes the nested repair of _rotate fire
             seq, d = rnd.choice(NESTED_SEEDS)
@@ -359,12 +449,14 @@ class H(Harness):
         L_ = len(ops)
         if L_ <= 12:
             dump_at = list(range(L_))
+        elif big:
+            dump_at = sorted(set(rnd.sample(range(L_), 2) + [L_ - 1]))
         else:
             dump_at = sorted(set(rnd.sample(range(L_), 6) + [L_ - 1]))
         draws = [j for j, o in enumerate(ops) if o[0] == 'Dr']
         dist_at = sorted(set(rnd.sample(draws, min(2, len(draws))) + [L_ - 1]))
         c = {'kind': kind, 'ops': ops, 'dump_at': dump_at, 'dist_at': dist_at, 'cls': rnd.choice(['DrawSet', 'DrawSet', 'Locus'])}
-        if rnd.random() < 0.1:
+        if rnd.random() < 0.1 and not big:
             # DrawSet(including, excluding): the constructor adds the elements in set-iteration order
             inc = [rnd.choice(uni) for _ in range(rnd.randrange(0, 25))]
             exc = [rnd.choice(uni) for _ in range(rnd.randrange(0, 6))]
@@ -412,8 +504,14 @@ class H(Harness):
 
     # ------------------------------------------------------------------ implementation side
     def execute(self, case):
+        restore = instrument()
+        try:
+            return self._execute(case)
+        finally:
+            restore()
+
+    def _execute(self, case):
         from epydemic import DrawSet, Locus
-        instrument()
         before = dict(_counts)
         init = case.get('init')
         init_order = []
@@ -434,8 +532,12 @@ class H(Harness):
         universe = sorted({elem(o[1]) for o in case['ops'] if o[0] in ('A', 'D', 'R', 'M')} | set(init_order))
         maxsize = 0
         methods = {}
+        height = walk(s._root)[1]
+        cost_checked = 0
         for i, (k, arg) in enumerate(case['ops']):
-            st = {'reqs': [], 'ints': []}
+            st = {'reqs': [], 'ints': [], 'h_before': height}
+            _counts['visits'] = 0
+            rot0 = _counts['rot']
             try:
                 if k == 'A':
                     s.add(elem(arg)); st['res'] = ['unit']
@@ -462,12 +564,20 @@ class H(Harness):
                     st['res'] = ['list', list(iter(s))]
             except Exception as ex:      # observable: the call raised something it should not
                 st['res'] = ['exception', type(ex).__name__ + ': ' + str(ex)[:80]]
+            st['visits'] = _counts['visits']
+            st['rot'] = _counts['rot'] - rot0
+            _counts['visits'] = 0
             try:
                 st['len'] = len(s)
             except Exception as ex:
                 st['len'] = -1
+            st['visits_len'] = _counts['visits']
+            _counts['visits'] = 0
             st['empty'] = s.empty()
+            st['visits_empty'] = _counts['visits']
+            cost_checked += 3
             dump, h, n, faults = walk(s._root)
+            height = h
             st['height'] = h
             st['size'] = n
             st['faults'] = faults
@@ -494,6 +604,8 @@ class H(Harness):
                           'laws_brute_force': methods.get('brute', 0), 'laws_bottom_up': methods.get('bottom-up', 0),
                           'laws_methods_disagree': methods.get('brute-only', 0), 'laws_not_enumerable': methods.get('not-enumerable', 0),
                           'pair_cases': 1 if case['kind'] == 'pair' else 0,
+                          'str_cases': 1 if case['kind'] == 'str' else 0, 'strpair_cases': 1 if case['kind'] == 'strpair' else 0,
+                          'sets_of_150_or_more': 1 if maxsize >= 150 else 0, 'calls_with_cost_bound': cost_checked,
                           'locus_cases': 1 if isinstance(s, Locus) else 0, 'constructor_cases': 1 if init else 0}}
 
     # ------------------------------------------------------------------ D
@@ -510,6 +622,7 @@ class H(Harness):
         for i, ((k, arg), st) in enumerate(zip(case['ops'], obs['steps'])):
             res = st['res']
             x = elem(arg) if k in ('A', 'D', 'R', 'M') else None
+            size_before = len(ref)
             if res[0] == 'exception':
                 bad('unexpected-exception', i, res[1])
             if k == 'A':
@@ -540,6 +653,19 @@ class H(Harness):
             elif k == 'I':
                 if res[0] != 'list' or [elem(y) for y in res[1]] != sorted(ref):
                     bad('iteration-order', i, res)
+            # every operation visits O(log n) entries (see COST)
+            hh = max(st['h_before'], st['height']) + 2
+            if k == 'I':
+                if st['visits'] > COST_ITER * (len(ref) + 1):
+                    bad('cost-iteration', i, {'entries_visited': st['visits'], 'n': len(ref)})
+            elif st['visits'] > COST[k] * hh * (1 + st['rot']):
+                bad('cost-' + {'A': 'add', 'D': 'discard', 'R': 'remove', 'Dr': 'draw', 'M': 'contains'}[k], i,
+                    {'entries_visited': st['visits'], 'allowed': COST[k] * hh * (1 + st['rot']), 'height': hh - 2,
+                     'rotations': st['rot'], 'n_before': size_before, 'n_after': len(ref)})
+            if st['visits_len'] > COST['len'] * hh:
+                bad('cost-len', i, {'entries_visited': st['visits_len'], 'allowed': COST['len'] * hh, 'n': len(ref)})
+            if st['visits_empty'] > COST['empty'] * hh:
+                bad('cost-empty', i, {'entries_visited': st['visits_empty'], 'allowed': COST['empty'] * hh, 'n': len(ref)})
             if st['len'] != len(ref):
                 bad('len', i, {'len': st['len'], 'expected': len(ref)})
             if st['empty'] != (not ref):
@@ -565,7 +691,18 @@ class H(Harness):
         return v
 
     # ------------------------------------------------------------------ Coq side
+    def _encoder(self, case, obs):
+        """elements as the Coq side sees them: ints as they are, int pairs as a*K+b, and strings / string pairs by
+        their rank in the sorted universe of the case (all three are order isomorphisms on the elements that
+        occur; the model uses nothing but the order).  Something that is not in the universe at all - which
+        only a broken implementation can hand back - becomes -1 and disagrees with the model."""
+        if case['kind'] in ('str', 'strpair'):
+            rank = {elem(x): j for j, x in enumerate(obs['universe'])}
+            return lambda x: rank.get(elem(x), -1)
+        return lambda x: enc(elem(x))
+
     def _res(self, k, st):
+        enc = self._enc
         r = st['res']
         if r[0] == 'unit':
             return 'RUnit'
@@ -585,10 +722,11 @@ class H(Harness):
         if e is None:
             return 'None'
         d, h, ls, rs = e
-        return 'Some (%s, %s, %s, %s)' % (L.z(enc(elem(d))), L.nat(h), L.nat(ls), L.nat(rs))
+        return 'Some (%s, %s, %s, %s)' % (L.z(self._enc(elem(d))), L.nat(h), L.nat(ls), L.nat(rs))
 
     def to_coq(self, case, obs):
         terms = []
+        enc = self._enc = self._encoder(case, obs)
         # the constructor is the sequence of adds in set-iteration order; it exposes no observation of
         # its own (the first real step is an iteration with a full dump), so the results written here
         # are what any set does after j+1 distinct adds
